@@ -51,6 +51,14 @@ CHECKS = {
         text="Lean proof that the generated process region, for EVERY table, refines the table's reference semantics for every state, event and guard valuation (C08_refines_table: same callbacks in the same order, guards in table order, first row with absent or true guard fires, NoTransition otherwise; C08_sequences: any event sequence with a valuation per event; C08_initial) and that the emitted lines always satisfy CPython's indentation rule, i.e. the module imports (C08_imports); tied to the code by parsing the real generated process region back into the emitter's structure (must equal Model.EmitPy.emit) and by importing and driving the real generated modules through a recording controller.",
         ref="DESIGN.md 6/C08", technique="Lean 4 proof (refinement of emitted program to table semantics, indentation invariant) + parse-back and behavioural correspondence",
         note="CPython's execution of if/return/call is assumed to be what the interpreter of Model/EmitPy does; guards pure within one event; names as in the property's domain."),
+    "C09": dict(
+        text="Lean proof about the rows the generator writes into make_transition_table for EVERY table: the transition rows are exactly the table lines in order with the same source/event/guard/action/target, only the first carries the initial marker, absent guard/action become gnone/none, rows without target stay internal (C09_rows_in_order, C09_initial); every state of the table - targets included - gets exactly one entry and one exit hook (C09_entry_exit_every_state); everything a row references is in the duplicate-free first-appearance lists the declarations are expanded from (C09_declared_once); tied to the code by parse-back of the generated table and declarations, plus g++ -fsyntax-only of the generated units against an interface-only sml stub.",
+        ref="DESIGN.md 6/C09", technique="Lean 4 proof (list algebra over the row emitter) + parse-back correspondence + compiler syntax check against a stub",
+        note="boost::sml itself is absent from the sandbox and not modelled: the claim is about the encoding; 'type-check together' is per sampled table (partial). Test.<SM>StateMachine.cpp not compiled (minunit absent)."),
+    "C10": dict(
+        text="Lean proof that for EVERY table the emitted handler of every (state, event) refines the table (guards in table order, first row with absent/true guard performs exit, action, enter, state change and returns; unlisted pairs and all-guards-false are ignored: C10_handler_refines_table, C10_unlisted_pair_ignored), that every callback a handler makes is declared in the context interface and each guard / (action,event) signature / state hook occurs once (C10_context_declares_calls, C10_context_declares_once), and that every state that can be entered - target-only states included - has its class (C10_every_enterable_state_has_class); tied to the code by brace-matched parse-back of <SM>Internals.cs and <SM>Context.cs.",
+        ref="DESIGN.md 6/C10", technique="Lean 4 proof (shared refinement theorem with C08) + parse-back correspondence",
+        note="No C# compiler in the sandbox: compile-ability is not claimed; C# statement semantics assumed as in the model's interpreter."),
 }
 PENDING = {}
 
